@@ -62,6 +62,8 @@ def b_answers(job):
         body = G.interface_history(g, rng, queries=queries)
     elif job.get("mode") == "dlgraph":
         body = G.dlgraph_history(g, rng, queries=queries)
+    elif job.get("mode") == "diamond":
+        body = G.diamond_history(g, rng, queries=queries)
     elif job.get("mode") == "cnf":
         body = cnf_history(g, rng, n_atoms=job.get("n_atoms", 8), levels=job.get("levels", 4))
         if queries:
@@ -257,6 +259,8 @@ def b_configs(job):
     g = G.Gen(rng, job["logic"], nnum=job.get("nnum", 3), maxconst=job.get("maxconst", 4))
     if job.get("mode") == "dlgraph":
         body = G.dlgraph_history(g, rng)
+    elif job.get("mode") == "diamond":
+        body = G.diamond_history(g, rng)
     elif job.get("mode") == "cnf":
         # clause sets over few, closely related atoms (small constants: equal and opposite bounds, zero-weight cycles)
         body = cnf_history(g, rng, n_atoms=job.get("n_atoms", 7), levels=job.get("levels", 4))
